@@ -36,7 +36,7 @@ Alphabet ==
   \cup { Op("Set", h, "", f, NilV, "", NoDef, TRUE) : h \in H, f \in {"n", "q"} }   \* untyped nil
   \cup { Op("Set", h, "", "b", V(0), "", NoDef, TRUE) : h \in H }                  \* empty bytes given as a nil slice
   \cup { Op("SetID", h, "", "", V(0), id, NoDef, FALSE) : h \in H, id \in {"i1", "i2", ""} }
-  \cup { Op(o, h, "", "", V(0), "", NoDef, FALSE) : o \in {"Copy", "NewLike", "TypeCopy", "Marshal", "TypeEdit"}, h \in H }
+  \cup { Op(o, h, "", "", V(0), "", NoDef, FALSE) : o \in {"Copy", "NewLike", "TypeCopy", "Marshal", "TypeEdit", "DerivedNew"}, h \in H }
   \cup { Op("MutSlice", h, "", f, V(3), "", NoDef, FALSE) : h \in H, f \in {"b", "q", "m"} }
   \cup { Op("Filter", h, "", "m", V(0), "", NoDef, FALSE) : h \in H }
   \cup { Op("AddField", h, "", p[1], V(0), "", p[2], FALSE) : h \in H,
